@@ -24,7 +24,7 @@ EXPECTED_PROBES = ['ended_by_timer_only', 'reached_ready', 'reached_rejected', '
                    'reached_unresponsive', 'reached_closed', 'connect_fail',
                    'nongraceful', 'graceful', 'non_ascii_request',
                    'read_filled_buffer_exactly', 'via_proxy_ok',
-                   'via_proxy_refusing']
+                   'via_proxy_refusing', 'reads_that_complete_nothing']
 
 TOKENS = ['good101', 'bad_accept', 'http200', 'garbage', 'bighdr', 'text',
           'frag', 'cont', 'ping', 'pong', 'close', 'invalid', 'badutf8',
@@ -102,7 +102,12 @@ def make_case(family, i, rng, tier):
                            'fullread', 'fullread2'],
                           [4, 2, 2, 3, 2, 1, 0.3, 2, 1, 2, 1],
                           k=rng.choice([0, 0, 1, 2, 5]))
-        case = {'tokens': ['good101'] + mid + ['hold'], 'faults': [],
+        # 'hold': silence for ever.  'drip': the server never stops sending
+        # but nothing it sends ever completes a message (one huge frame a
+        # byte at a time, faster than the poll interval): only a timer can
+        # end the iteration
+        last = rng.choice(['hold', 'hold', 'drip'])
+        case = {'tokens': ['good101'] + mid + [last], 'faults': [],
                 'epoch': rng.choice([0, 1.7e9]),
                 'pongs': rng.choice([0, 0, 1, 3]),
                 'poll': rng.choice([5, 1, 0.25]),
@@ -117,6 +122,13 @@ def make_case(family, i, rng, tier):
             case['close_timeout'] = rng.choice([3, 30, 0.5])
             case['app'] = rng.choice(['close_on_ready', 'early_bird',
                                       'send_after_close'])
+        if last == 'drip':
+            # nothing but the drip after the handshake, no Pongs: the timer
+            # that ends the iteration is known
+            case['tokens'] = ['good101', 'drip']
+            case['pongs'] = 0
+            if case['ping_timeout'] is None and not case['close_timeout']:
+                case['close_timeout'] = 3
         return case
     # random long histories
     n = rng.choice([3, 8, 20, 60, 200])
@@ -195,7 +207,13 @@ def _compile_tokens(tokens):
             steps.append(S.rst())
         elif t == 'hold':
             steps.append({'op': 'silence'})
-    if not tokens or tokens[-1] not in ('eof', 'rst', 'hold'):
+        elif t == 'drip':
+            fr = peer.enc_frame(2, b'd' * 60000)
+            for j in range(1500):
+                steps.append({'op': 'send', 'hex': fr[j:j + 1].hex(),
+                              'after': 60007})
+            steps.append({'op': 'silence'})
+    if not tokens or tokens[-1] not in ('eof', 'rst', 'hold', 'drip'):
         steps.append(S.eof(after=1000000))
     return steps
 
@@ -338,7 +356,26 @@ def execute(case):
     if any(t.startswith('fullread') for t in case['tokens']) and \
             'binary' in names:
         res.stats['probe:read_filled_buffer_exactly'] += 1
-    if case['tokens'] and case['tokens'][-1] == 'hold' and tr.finished:
+    if case['tokens'] and case['tokens'][-1] == 'drip':
+        res.stats['probe:reads_that_complete_nothing'] += 1
+        ready = [e for e in tr.events if e.name == 'ready']
+        if ready and tr.finished:
+            p = float(case.get('poll', 5))
+            bounds = []
+            if case.get('ping_timeout'):
+                bounds.append(case['ping_timeout'] + p + 1)
+            if case.get('close_timeout') and case['app'] in (
+                    'close_on_ready', 'early_bird', 'send_after_close'):
+                bounds.append(case['close_timeout'] + 3 * p + 1)
+            took = (tr.events[-1].t - ready[0].t) / 1e6
+            if bounds and took > min(bounds):
+                res.bad('C07/timer_starved_by_reads',
+                        'the server dripped bytes that complete no message; '
+                        'a timer should have ended the iteration within '
+                        '%.1f s of Ready, it ended after %.1f s (events %s)'
+                        % (min(bounds), took, names[-4:]))
+    if case['tokens'] and case['tokens'][-1] in ('hold', 'drip') and \
+            tr.finished:
         res.stats['probe:ended_by_timer_only'] += 1
     res.nontrivial = len(names) > 1
     res.sig = ','.join(n[:4] for n in names if n != 'poll') + '|' + \
